@@ -136,8 +136,14 @@ def agree(rec, res):
     return None
 
 
+_SHARED = {}
+
+
 def _replay_chunk(args):
-    progs, recs, opts, wdroot = args
+    if len(args) == 2:      # (worker index, work directory): the batch reaches the worker through the fork
+        progs, recs, opts, wdroot = _SHARED['progs'], _SHARED['parts'][args[0]], _SHARED['opts'], args[1]
+    else:
+        progs, recs, opts, wdroot = args
     common.use_repo()
     recorder = None
     if any(o.get('ops') for o in opts):
@@ -279,8 +285,12 @@ def replay_all(progs, recs, opts, procs=14, chunk=1500, name='replay'):
     for i, pid in enumerate(sorted(bypid)):      # all executions of one program go to one worker (conversion is per process)
         parts[i % nparts].extend(bypid[pid])
     # keep executions of one program in one chunk where possible (conversion is per process)
-    with multiprocessing.get_context('fork').Pool(min(procs, max(1, len(parts)))) as pool:
-        results = pool.map(_replay_chunk, [(progs, part, opts, wdroot) for part in parts])
+    _SHARED.update(progs=progs, parts=parts, opts=opts)
+    try:
+        with multiprocessing.get_context('fork').Pool(min(procs, max(1, len(parts)))) as pool:
+            results = pool.map(_replay_chunk, [(k, wdroot) for k in range(len(parts))])
+    finally:
+        _SHARED.clear()
     common.rmtree(wdroot)
     div = [d for r in results for d in r['div']]
     n = sum(r['n'] for r in results)
